@@ -216,7 +216,7 @@ Theorem stream_parity : forall checked error_page pkg secure1 alt m sd r f,
   = onorm (send_pipe checked error_page pkg false H2 true alt m sd r f).
 Proof. exact send_pipe_parity. Qed.
 
-(** The code before the repair 572c88a ([head_future = true]) ran the future for HEAD too: the streamed bytes follow the head
+(** The code before the repair d63bba7 ([head_future = true]) ran the future for HEAD too: the streamed bytes follow the head
     of the HEAD answer on both protocols — out-of-step HTTP/1 connection, DATA the h2 client refuses (replayed on the real
     code before the repair: known-findings.txt). *)
 Theorem head_stream_v0_refuted : exists r cs n,
@@ -272,7 +272,7 @@ Theorem second_read_refuted : exists body early conn frames l1 l2,
   h1_reads (mkH1B early conn (N.of_nat (length body))) [l1; l2] <> h2_reads frames [l1; l2].
 Proof. exact second_read_refuted_lemma. Qed.
 
-(** [extensions::stream_body] (repaired, 7cbe1e5) meets [fut_framed] for every file and Range: the length it announces is the
+(** [extensions::stream_body] (repaired, d675f8a) meets [fut_framed] for every file and Range: the length it announces is the
     number of bytes its future writes (the whole file without a Range); before the repair it was not. *)
 Theorem stream_body_framed : forall file a c,
   match stream_plan true file (Some (a, c)) with Some (b, n) => n = N.of_nat (length b) | None => True end /\
